@@ -19,4 +19,21 @@ try:
 except Exception as e:
     print("replay warm-up failed (checks still run; replay will rebuild on demand):", e)
 PY
+# warm the nightly MIR target dir (engine M) and the Kani harness crate (engine K)
+/opt/veriftools/pyvenv/bin/python3 - <<'PY'
+import sys, os
+sys.path.insert(0, os.path.join(os.getcwd(), "lib"))
+import mirsmt
+for crate, out in (("leptos_i18n_parser", "parser.mir"), ("leptos_i18n_router", "router.mir")):
+    try:
+        mirsmt.dump_mir(crate, out)
+        print("MIR of", crate, "ok")
+    except Exception as e:
+        print("MIR warm-up of", crate, "failed (the check will retry):", e)
+PY
+for c in kani/*/; do
+  n=$(basename "$c")
+  cp -n /repo/Cargo.lock "$c/Cargo.lock" 2>/dev/null || true
+  (cd "$c" && cargo kani --only-codegen --target-dir "$PWD/../../.cache/kani-target-$n" >/dev/null 2>&1) || echo "kani warm-up of $n failed (the check will rebuild)"
+done
 echo setup done
